@@ -110,6 +110,9 @@ def instances (m : Metric) (x : Data) (grp : Option (Nat → Int)) (T : Nat) : E
 /-- the total number of instances -/
 def total (m : Mask) (T I J : Nat) : Nat := sum3 T I J (inst m)
 
+/-- number of instances at one location -/
+def countAt (m : Mask) (T i j : Nat) : Nat := sumR T (fun t => inst m t i j)
+
 /-! ### exceedance probability -/
 
 /-- `np.einsum("ijk -> jk", inst) / inst.shape[0]` (for `T = 0` numpy returns NaN; the theorems carry `0 < T`) -/
